@@ -240,6 +240,8 @@ def run(ctx):
                 model_cases.append((s, cs, mode, ev, snaps))
         real_oracle(ctx, I)
         resync_refs(ctx, I)
+        resync_vocab(ctx, I)
+        leaf_second_token(ctx, I)
         spec_oracle(ctx, I)
     ctx.sample(dict(stream=list(cases[len(corpus)][0]), rootmode=cases[len(corpus)][1], kind=cases[len(corpus)][2]))
     ctx.sample(dict(stream=list(cases[-1][0]), rootmode=cases[-1][1], kind=cases[-1][2]))
@@ -543,6 +545,91 @@ def resync_refs(ctx, I):
                          "sub-objects was not decoded as sent (object numbering must count discarded OPENs too): expected %r, got %r, escaped %r; "
                          "chunks %r" % (expect, got, esc, cs[:12]), replay=dict(stream=list(s), chunks=cs, real=True))
                 break
+
+
+def resync_vocab(ctx, I):
+    """the inbound vocabulary table in force must survive an object that is discarded part-way, in particular a set-vocab / add-vocab
+    sequence that is itself rejected or aborted before its CLOSE: objects that follow are decoded with the table the last COMPLETE
+    replacement installed"""
+    from foolscap import storage
+    r = ctx.rng
+
+    class W:
+        def __init__(self):
+            self.data = []
+            self.disconnecting = False
+
+        def write(self, d):
+            self.data.append(bytes(d))
+
+        def loseConnection(self, *a):
+            pass
+    n = ctx.n(16, 200)
+    for i in range(n):
+        words = r.choice([[b"list", b"dict"], [b"list", b"dict", b"tuple", b"set"], [b"dict", b"list"], [b"list"]])
+        b = storage.StorageBanana()
+        b.transport = W()
+        b.connectionMade()
+        b.setOutgoingVocabulary(words)
+        o1 = r.choice([[1, 2], {3: 4}, [[5], {6: [7]}]])
+        b.send(o1)
+        # a set-vocab that never completes: aborted, or ended by a word over the 100-byte limit, or by a non-INT key
+        k = 90 + i
+        kind = r.choice(["abort", "longword"])      # (a non-INT key or an OPEN inside set-vocab is a protocol error, not a violation)
+        if kind == "abort":
+            bad = tok(OPEN, k) + S(b"set-vocab") + enc_int(0) + S(b"tuple") + tok(ABORT, k) + enc_int(1) + S(b"x") + tok(CLOSE, k)
+        elif kind == "longword":
+            bad = tok(OPEN, k) + S(b"set-vocab") + enc_int(0) + S(b"tuple") + enc_int(1) + S(b"w" * 150) + tok(CLOSE, k)
+        elif kind == "badkey":
+            bad = tok(OPEN, k) + S(b"set-vocab") + enc_int(0) + S(b"tuple") + S(b"notanint") + S(b"x") + tok(CLOSE, k)
+        else:
+            bad = tok(OPEN, k) + S(b"set-vocab") + enc_int(0) + S(b"tuple") + tok(OPEN, k + 1) + S(b"list") + tok(CLOSE, k + 1) + tok(CLOSE, k)
+        mark = len(b.transport.data)
+        o2 = r.choice([{3: 4}, [1, {2: 3}], [[1], [2]]])
+        o3 = r.choice([[5], {8: 9}])
+        b.send(o2)
+        b.send(o3)
+        s = b"".join(b.transport.data[:mark]) + bad + b"".join(b.transport.data[mark:])
+        expect_tail = [["deliver", I.deep_canon(o2)], ["deliver", I.deep_canon(o3)]]
+        for cs in chunkings(r, len(s), bytewise_limit=300):
+            ev, final, esc = I.run_real(s, cs, I.RealStorageBanana)
+            ctx.case(["resync-vocab", list(s), cs], nontrivial=True)
+            ctx.hist("kind", "real-resync-vocab")
+            got = [list(e) for e in ev if e[0] in ("deliver", "violation", "receive-error", "error-sent", "lose")]
+            ok = (not esc and len(got) >= 3 and got[0] == ["deliver", I.deep_canon(o1)] and got[-2:] == expect_tail
+                  and all(e == ["violation"] for e in got[1:-2]) and len(got[1:-2]) >= 1)
+            if not ok:
+                ctx.fail("oracle/vocab-table-after-discarded-object", "after a set-vocab sequence that was discarded part-way (%s) the following "
+                         "objects were not decoded with the table in force: expected deliver %r, violation(s), deliver %r, deliver %r; got %r, "
+                         "escaped %r; chunks %r" % (kind, o1, o2, o3, got, esc, cs[:12]), replay=dict(stream=list(s), chunks=cs, real=True))
+                break
+
+
+def leaf_second_token(ctx, I):
+    """the one-token sequences (unicode, decimal, boolean, none) take exactly one body token: a second one is a protocol violation
+    whatever the first one was (empty string, zero, False ...): ERROR is sent, the connection closes, nothing later is delivered"""
+    r = ctx.rng
+    fams = [(b"unicode", [S(b""), S(b"abc"), S(b"0")], [S(b"def"), S(b"")]),
+            (b"decimal", [S(b"0"), S(b"-0.00"), S(b"1.5")], [S(b"2.5"), S(b"0")]),
+            (b"boolean", [enc_int(0), enc_int(1)], [enc_int(1), enc_int(0)]),
+            (b"none", [], [enc_int(0), S(b"")])]
+    for ot, firsts, seconds in fams:
+        for f in (firsts or [b""]):
+            for g in seconds:
+                for nested in (False, True):
+                    body = tok(OPEN, 1 if nested else 0) + S(ot) + f + g + tok(CLOSE, 1 if nested else 0)
+                    s = (tok(OPEN, 0) + S(b"list") + body + tok(CLOSE, 0)) if nested else body
+                    s += tok(OPEN, 5) + S(b"list") + enc_int(7) + enc_int(8) + tok(CLOSE, 5)
+                    for cs in chunkings(r, len(s), bytewise_limit=100):
+                        ev, final, esc = I.run_real(s, cs)
+                        ctx.case(["leaf-second-token", list(s), cs], nontrivial=True)
+                        ctx.hist("kind", "real-leaf-second-token")
+                        delivered = [e for e in ev if e[0] == "deliver"]
+                        if esc or delivered or not final["dead"] or not any(e[0] == "error-sent" for e in ev):
+                            ctx.fail("oracle/second-token-in-one-token-sequence", "a second body token inside OPEN %s was not treated as a "
+                                     "protocol violation: delivered %r, abandoned=%s, events %r, escaped %r; chunks %r"
+                                     % (ot.decode(), delivered, final["dead"], ev[:6], esc, cs[:12]), replay=dict(stream=list(s), chunks=cs, real=True))
+                            break
 
 
 def _ser_many(objs):
